@@ -1,41 +1,80 @@
-(** Cache/ConcLink.v — the sequential answer [D1] of Cache/ConcProofs.v (one type, C13) is the denotation
-    [D] of Cache/Proofs.v (C12) of the type-indifferent document [fun _ => prog]. *)
+(** Cache/ConcLink.v — the expected answers [D prog rank ty r] of the interleaving theorems (Cache/ConcProofs.v,
+    C13) are the answers of the sequential model of file.rs get (Cache/Model.v, C12): what get::<ty>(r) returns
+    when it runs alone — cached or not, after any sequential history.  Hence the statement of the property
+    itself: every call of every thread returns what it returns when it runs alone. *)
 From PdfV Require Import Base.Prelude Gen.Generated Cache.Model Cache.Conc Cache.Proofs Cache.ConcProofs.
 
-Lemma den1_is_den (prog : ref -> comp) : forall n ty r,
-  den1 prog n r = den (fun _ => prog) n ty r.
+Definition no_filters : ref -> list filt := fun _ => [].
+Definition no_raw : ref -> outcome := fun _ => Ok 0.
+Definition id_appf : filt -> val -> outcome := fun _ d => Ok d.
+Definition id_imgc : ref -> filt -> val -> outcome := fun _ _ d => Ok d.
+
+Lemma D_is_alone_answer : forall (prog : tytag -> ref -> comp) (rank : ref -> nat) (fuel : nat) (ty : tytag) (r : ref),
+  acyclic prog rank -> (rank r < fuel)%nat ->
+  fst (get no_cache prog fuel [] ty r init) = D prog rank ty r.
 Proof.
-  induction n as [|n IH]; intros ty r; cbn [den1 den]; [reflexivity|].
-  generalize (prog r) as p. induction p as [o|ty' r' k IHp]; [reflexivity|].
-  rewrite (IH ty' r'). apply IHp.
+  intros prog rank fuel ty r Hac Hr.
+  apply (cache_typed_get_any_history prog no_filters no_raw id_appf id_imgc rank false false fuel [] ty r Hac);
+    [constructor|exact Hr].
 Qed.
 
-Lemma D1_is_D : forall prog rank ty r, D1 prog rank r = D (fun _ => prog) rank ty r.
-Proof. intros prog rank ty r. unfold D1, D. apply den1_is_den. Qed.
+(** the sequential model of get (any cache configuration, after any sequential history of read calls of any
+    types) returns [D ty r] for a typed get — the expected answer of the interleaving theorems *)
+Lemma D_is_sequential_answer :
+  forall (prog : tytag -> ref -> comp) (filters : ref -> list filt) (raw : ref -> outcome)
+         (appf : filt -> val -> outcome) (imgc : ref -> filt -> val -> outcome)
+         (rank : ref -> nat) (oc sc : bool) (fuel : nat) (history : list call) (ty : tytag) (r : ref),
+    acyclic prog rank -> fuel_ok rank fuel history -> (rank r < fuel)%nat ->
+    let st := final_state prog filters raw appf imgc oc sc fuel history init in
+    fst (get (cfg_fixed oc sc) prog fuel [] ty r st) = D prog rank ty r /\
+    fst (get no_cache prog fuel [] ty r init) = D prog rank ty r.
+Proof. exact cache_typed_get_any_history. Qed.
 
-Lemma bounded1_is_bounded rank n p : bounded1 rank n p <-> bounded rank n p.
+(** the property as it is worded: under every schedule prefix of any number of threads making any number of
+    typed calls, a thread that has finished has received, call by call, what each call returns when it runs
+    alone on a cache-free resolver; an unfinished thread has received a prefix of that *)
+Theorem conc_answers_alone : forall c prog rank progs sched fuel t,
+  per_thread c = true -> acyclic prog rank ->
+  (forall cl, In cl (nth t progs []) -> (rank (snd cl) < fuel)%nat) ->
+  let g := run_sched c prog (ginit progs) sched in
+  let alone := fun cl : tcall => fst (get no_cache prog fuel [] (fst cl) (snd cl) init) in
+  (exists k, results (threads g t) = map alone (firstn k (nth t progs []))) /\
+  (finished g t = true -> results (threads g t) = map alone (nth t progs [])).
 Proof.
-  induction p as [o|ty r k IH]; cbn [bounded1 bounded]; [tauto|].
-  split; intros [H1 H2]; (split; [exact H1|]); intros o; apply IH; apply H2.
+  intros c prog rank progs sched fuel t Hpt Hac Hfuel g alone.
+  destruct (conc_per_thread_chain c prog rank Hpt Hac progs sched) as (_ & _ & Hpre & Hfin & _).
+  assert (Hext : forall l, (forall cl, In cl l -> In cl (nth t progs [])) ->
+                           map (call_ans (D prog rank)) l = map alone l).
+  { intros l Hl. apply map_ext_in. intros cl Hin. unfold alone, call_ans. symmetry.
+    apply D_is_alone_answer; [exact Hac|]. apply Hfuel. apply Hl. exact Hin. }
+  split.
+  - destruct (Hpre t) as (k & Hk). exists k. fold g in Hk. rewrite Hk. apply Hext.
+    intros cl Hin. rewrite <- (firstn_skipn k (nth t progs [])). apply in_or_app. left. exact Hin.
+  - intros Hf. fold g in Hfin. rewrite (Hfin t Hf). apply Hext. auto.
 Qed.
+(** * the class of changes "serve a cached error of some kinds" under concurrency
 
-Lemma acyclic1_is_acyclic prog rank : acyclic1 prog rank <-> acyclic (fun _ => prog) rank.
-Proof.
-  unfold acyclic1, acyclic. split.
-  - intros H ty r. apply bounded1_is_bounded. apply H.
-  - intros H r. apply bounded1_is_bounded. apply (H 0 r).
-Qed.
+    [step_gen serve] is [step] with the decision "return an error found in the cache as it is?" left open ([step]
+    = never, the code).  For every error kind k of the harness' kind codes (1 other / "Recursive reference", 2 NullRef,
+    3 FreeObject, 4 MissingEntry, 5 EOF, 6 UnspecifiedXRefEntry, 7 PageOutOfBounds, 8 MaxDepth, 9 InvalidPassword,
+    10 UnexpectedPrimitive, 11 parse error) the variant that serves cached errors of kind k is wrong: thread 0 loads
+    reference 3 as type 1 and fails with kind k; thread 1, which loads the same reference as type 2 (alone: the
+    value 7), arrives while thread 0 computes, waits on InProcess, receives the published error — and returns it.
+    (The sequential theorem [serving_cached_errors_refuted] of Cache/Proofs.v is for an arbitrary predicate.) *)
+Definition error_kinds : list N := [1; 2; 3; 4; 5; 6; 7; 8; 9; 10; 11].
 
-(** the expected answer [D1] of the interleaving theorems is what the sequential model of file.rs get
-    (Cache/Model.v, any cache configuration) returns for that reference *)
-Lemma D1_is_sequential_answer : forall (prog : ref -> comp) (rank : ref -> nat) (oc sc : bool) (fuel : nat)
-    (r : ref) (o : outcome) (st' : state),
-  acyclic1 prog rank -> (rank r < fuel)%nat ->
-  get (cfg_fixed oc sc) (fun _ => prog) fuel [] 0 r init = (o, st') -> o = D1 prog rank r.
+Theorem conc_serving_cached_errors_refuted : forall k : N, In k error_kinds ->
+  let serve := fun e : N => e =? k in
+  let prog := kind_prog k in
+  let c := mkCcfg true true true in
+  let g := fold_left (step_gen c prog serve) [0; 0; 1; 1; 0; 0; 0; 1; 1; 1; 1; 1]%nat (ginit [[(1, 3)]; [(2, 3)]]) in
+  acyclic prog (fun _ => O) /\ finished g 1%nat = true /\
+  results (threads g 1%nat) = [Err k] /\ fst (get no_cache prog 2 [] 2 3 init) = Ok 7.
 Proof.
-  intros prog rank oc sc fuel r o st' Hac Hf Hg.
-  rewrite (D1_is_D prog rank 0 r).
-  apply (cache_answers_D (fun _ => prog) (fun _ => []) (fun _ => Ok 0) (fun _ d => Ok d) (fun _ _ d => Ok d)
-                         rank oc sc fuel 0 r st' o); [|exact Hf|exact Hg].
-  apply acyclic1_is_acyclic. exact Hac.
+  intros k Hk.
+  assert (Hac : forall k', acyclic (kind_prog k') (fun _ => O)).
+  { intros k' ty r. unfold kind_prog. destruct (ty =? 1); exact I. }
+  unfold error_kinds in Hk. cbn [In] in Hk.
+  repeat (destruct Hk as [<-|Hk]; [split; [apply Hac|vm_compute; repeat split; reflexivity]|]).
+  contradiction.
 Qed.
